@@ -29,6 +29,9 @@ impl Rng {
 }
 
 pub struct Ctx {
+    /// lengths far beyond the usual range (thousands of bits) for the cheap operations: set by the
+    /// generators whose model evaluation is linear or quadratic in the number of words only
+    pub allow_huge: std::cell::Cell<bool>,
     pub rng: Rng,
     pub out: std::cell::RefCell<std::io::BufWriter<std::fs::File>>,
     pub profile: u32,
@@ -119,6 +122,9 @@ fn boundary_lens(kid: u8, thorough: bool) -> Vec<usize> {
 }
 
 pub fn rand_len(ctx: &mut Ctx, kid: u8) -> usize {
+    if !kind_is_fixed(kid) && ctx.allow_huge.get() && ctx.rng.chance(1, if ctx.thorough { 12 } else { 40 }) {
+        return ctx.rng.pick(&[4160usize, 4224, 6400, 8192, 8256, 8320, 12800]) + ctx.rng.below(3) as usize - 1;
+    }
     let b = boundary_lens(kid, ctx.thorough);
     if ctx.rng.chance(3, 4) {
         ctx.rng.pick(&b)
@@ -334,7 +340,53 @@ fn small_scope_binops(ctx: &mut Ctx, ops: &[u32], maxlen: usize, kinds: &[u8]) {
 
 const REP_KINDS: [u8; 8] = [0, 2, 4, 8, 11, 14, 15, 18];
 
+/// the same object on both sides of an operator: `&a op &a`
+fn alias_cases(ctx: &mut Ctx, ops: &[u32], per_kind: u64) {
+    for k in 0..NKINDS {
+        for _ in 0..per_kind {
+            let a = rand_val(ctx, k);
+            let op = ctx.rng.pick(ops);
+            if (op == 69 || op == 70) && limbs_of(&a).iter().all(|x| *x == 0) {
+                continue;
+            }
+            ctx.emit(Case::new(op).form(6).val(a.clone()).val(a));
+        }
+        // all-ones at odd and even word counts: squaring carries
+        for len in [64usize, 128, 129, 192, 256, 320] {
+            if len <= kind_cap_or(k, 100000) {
+                let a = make_val(k, len, &vec![u64::MAX; (len + 63) / 64], 0, false);
+                for &op in ops {
+                    if op != 69 && op != 70 {
+                        ctx.emit(Case::new(op).form(6).val(a.clone()).val(a.clone()));
+                    }
+                }
+            }
+        }
+    }
+}
+
 fn gen_c01(ctx: &mut Ctx) {
+    ctx.allow_huge.set(true);
+    let na = ctx.scale(12, 120);
+    alias_cases(ctx, &[66, 67, 68], na);
+    // both operands thousands of bits long (dynamic storage only): blocking, tiling and long carry chains
+    let huge = [4160usize, 4224, 6400, 8192, 8320, 12800];
+    for &la in &huge {
+        for &lb in &huge {
+            for pat in 0..(if ctx.thorough { 4 } else { 2 }) {
+                let ka = ctx.rng.pick(&[KD, KA]);
+                let kb = ctx.rng.pick(&[KD, KA]);
+                let (x, y) = match pat {
+                    0 => (vec![u64::MAX; (la + 63) / 64], vec![u64::MAX; (lb + 63) / 64]),
+                    _ => (rand_limbs(ctx, la), rand_limbs(ctx, lb)),
+                };
+                let a = make_val(ka, la, &x, ctx.rng.below(2) as usize, true);
+                let b = make_val(kb, lb, &y, ctx.rng.below(2) as usize, true);
+                let op = if pat == 0 { 68 } else { ctx.rng.pick(&[66u32, 67, 68, 68]) };
+                ctx.emit(Case::new(op).form(ctx.rng.below(6) as u32).val(a).val(b));
+            }
+        }
+    }
     let pp = ctx.scale(12, 120);
     binop_cases(ctx, &[66, 67, 68], pp, &[0, 1, 2, 3, 4, 5]);
     let pk = ctx.scale(20, 200);
@@ -387,7 +439,78 @@ fn integer_trait_cases(ctx: &mut Ctx) {
     }
 }
 
+/// a = q*b + r with structured q, b, r (r in {0, 1, b-1}), long operands included: quotient digit
+/// estimates, add-back steps and exact multiples are certain rather than 2^-64
+fn division_lattice(ctx: &mut Ctx) {
+    let kinds: [u8; 4] = [KD, KA, 9, 17];
+    let lens: Vec<usize> = if ctx.thorough { vec![64, 128, 192, 320, 576, 640, 1024] } else { vec![64, 128, 192, 320, 576] };
+    for &ka in &kinds {
+        for &la in &lens {
+            if la > kind_cap_or(ka, 100000) {
+                continue;
+            }
+            for lb_words in 1..=((la + 63) / 64).min(4) {
+                for pat in 0..4 {
+                    // divisor of lb_words words: all ones / top bit + 1 / alternating / random
+                    let mut b: Vec<u64> = match pat {
+                        0 => vec![u64::MAX; lb_words],
+                        1 => { let mut t = vec![0u64; lb_words]; t[lb_words - 1] = 1u64 << 63; t[0] |= 1; t }
+                        2 => vec![0x5555_5555_5555_5555; lb_words],
+                        _ => (0..lb_words).map(|_| ctx.rng.next() | 1).collect(),
+                    };
+                    if b.iter().all(|x| *x == 0) { b[0] = 1; }
+                    // a = (2^la - 1) rounded down to a multiple of b, plus r: computed with the crate itself would be
+                    // circular, so build a as all-ones / all-ones minus small / 2^(la-1): near-multiples arise from the
+                    // all-ones divisor patterns (2^k - 1 divides 2^(k*m) - 1)
+                    for apat in 0..4 {
+                        let mut a: Vec<u64> = vec![u64::MAX; (la + 63) / 64];
+                        match apat {
+                            1 => a[0] = u64::MAX - 1,
+                            2 => { for x in a.iter_mut() { *x = 0; } let n = a.len(); a[n - 1] = 1u64 << ((la - 1) % 64); }
+                            3 => { for x in a.iter_mut() { *x = ctx.rng.next(); } }
+                            _ => {}
+                        }
+                        let av = make_val(ka, la, &a, ctx.rng.below(3) as usize, ctx.rng.chance(1, 3));
+                        let kb = ctx.rng.pick(&[KD, KA, 9, 17, 11]);
+                        let lb = (lb_words * 64).min(kind_cap_or(kb, 100000));
+                        let bv = make_val(kb, lb, &b, ctx.rng.below(2) as usize, ctx.rng.chance(1, 3));
+                        ctx.emit(Case::new(71).val(av.clone()).val(bv.clone()));
+                        ctx.emit(Case::new(69 + ctx.rng.below(2) as u32).form(ctx.rng.below(6) as u32).val(av).val(bv));
+                    }
+                }
+            }
+        }
+    }
+}
+
+/// x against x + 2^k for k at and beyond every 64-bit boundary: operands that agree on all low words
+fn high_word_pairs(ctx: &mut Ctx) {
+    for ka in 0..NKINDS {
+        for kb in 0..NKINDS {
+            let la = rand_len(ctx, ka).min(700);
+            let limbs = rand_limbs(ctx, la);
+            let a = make_val(ka, la, &limbs, ctx.rng.below(3) as usize, ctx.rng.chance(1, 2));
+            let capb = kind_cap_or(kb, 700);
+            for k in [63usize, 64, 65, 127, 128, 129, 191, 192, 200, 255, 256, 319] {
+                if k < capb {
+                    let mut l2 = limbs_of(&a);
+                    let lb = (k + 1 + ctx.rng.below(3) as usize).max(la.min(capb)).min(capb);
+                    l2.resize((lb + 63) / 64, 0);
+                    l2[k / 64] ^= 1u64 << (k % 64);
+                    let b = make_val(kb, lb, &l2, ctx.rng.below(3) as usize, ctx.rng.chance(1, 2));
+                    ctx.emit(Case::new(34).val(a.clone()).val(b.clone()));
+                    ctx.emit(Case::new(34).val(b.clone()).val(a.clone()));
+                    ctx.emit(Case::new(35).val(a.clone()).val(b));
+                }
+            }
+        }
+    }
+}
+
 fn gen_c02(ctx: &mut Ctx) {
+    let na = ctx.scale(8, 80);
+    alias_cases(ctx, &[69, 70], na);
+    division_lattice(ctx);
     let pp = ctx.scale(10, 80);
     for ka in 0..NKINDS {
         for kb in 0..NKINDS {
@@ -421,6 +544,9 @@ fn gen_c02(ctx: &mut Ctx) {
 }
 
 fn gen_c04(ctx: &mut Ctx) {
+    ctx.allow_huge.set(true);
+    let na = ctx.scale(8, 80);
+    alias_cases(ctx, &[63, 64, 65], na);
     let pp = ctx.scale(12, 120);
     binop_cases(ctx, &[63, 64, 65], pp, &[0, 1, 2, 3, 4, 5]);
     let pk = ctx.scale(20, 200);
@@ -443,11 +569,13 @@ fn shift_amounts(ctx: &mut Ctx, t: u128, len: usize) -> u128 {
     let l = len as u128;
     let cands = [0, 1, 2, 7, 8, 9, 15, 16, 17, 31, 32, 33, 63, 64, 65, 127, 128, 129, 191, 192, 193, 255, 256, 257, 320, 384, l.wrapping_sub(1), l, l + 1, l / 2,
         l.saturating_sub(64), l.saturating_sub(65), l.saturating_sub(128), (l / 64) * 64, (l / 128) * 128, max, max - 1,
-        (1u128 << 32), u64::MAX as u128, (u64::MAX as u128) + 1, (u64::MAX as u128) + 2, 1u128 << 127];
+        (1u128 << 32), (1u128 << 32) + 1, (1u128 << 32) + 7, (1u128 << 33) + 3, (1u128 << 40) + 63, (1u128 << 63) + 5, (1u128 << 64) + 3, (1u128 << 100) + 1,
+        u64::MAX as u128, (u64::MAX as u128) + 1, (u64::MAX as u128) + 2, 1u128 << 127];
     (if ctx.rng.chance(3, 4) { ctx.rng.pick(&cands) } else { ctx.rng.below(len as u64 + 3) as u128 }) & max
 }
 
 fn gen_c05(ctx: &mut Ctx) {
+    ctx.allow_huge.set(true);
     let n = ctx.scale(25, 250);
     for ka in 0..NKINDS {
         for t in UINT_TYPES {
@@ -479,6 +607,7 @@ fn gen_c05(ctx: &mut Ctx) {
 }
 
 fn gen_c06(ctx: &mut Ctx) {
+    ctx.allow_huge.set(true);
     let n = ctx.scale(60, 600);
     for ka in 0..NKINDS {
         for _ in 0..n {
@@ -575,8 +704,8 @@ fn edit_case(ctx: &mut Ctx, a: &Val) -> Case {
         9 => {
             let g = pick_growth(ctx).min(70);
             let bits = rand_bits(ctx, g);
-            let hint = if ctx.rng.chance(1, 2) { bits.len() as u128 } else { 0 };
-            Case::new(58).arg(hint).val(a.clone()).list(bits)
+            let n = bits.len();
+            hint_args(ctx, Case::new(58), n).val(a.clone()).list(bits)
         }
         10 => Case::new(49 + ctx.rng.below(2) as u32).arg(ctx.rng.below(a.len as u64 + 1) as u128).val(a.clone()),
         11 => {
@@ -732,6 +861,19 @@ fn sig_bits(l: &[u64]) -> usize {
     0
 }
 
+/// size-hint arguments for FromIterator / Extend cases: [lower bound; mode], see exec.rs `hinted`
+fn hint_args(ctx: &mut Ctx, c: Case, n: usize) -> Case {
+    match ctx.rng.below(8) {
+        0 | 1 => c.arg(n as u128),
+        2 => c.arg(0),
+        3 => c.arg(ctx.rng.below(n as u64 + 1) as u128).arg(1),
+        4 => c.arg(ctx.rng.below(n as u64 + 1) as u128).arg(2),
+        5 => c.arg(n as u128).arg(3),
+        6 => c.arg(0).arg(2),
+        _ => c.arg(ctx.rng.below(n as u64 + 1) as u128).arg(4),
+    }
+}
+
 fn iter_case(ctx: &mut Ctx, a: &Val) -> Case {
     let n = 1 + ctx.rng.below(10);
     let mut calls: Vec<u128> = vec![];
@@ -802,8 +944,8 @@ fn gen_c07(ctx: &mut Ctx) {
         for _ in 0..m {
             let len = rand_len(ctx, k);
             let bits = rand_bits(ctx, len);
-            let hint = if ctx.rng.chance(1, 2) { len as u128 } else { 0 };
-            ctx.emit(Case::new(10).kind(k).arg(hint).list(bits));
+            let c = hint_args(ctx, Case::new(10).kind(k), len);
+            ctx.emit(c.list(bits));
         }
     }
     // empty operands for append / prepend / insert on every pairing
@@ -866,6 +1008,8 @@ fn gen_c08(ctx: &mut Ctx) {
 }
 
 fn gen_c09(ctx: &mut Ctx) {
+    ctx.allow_huge.set(true);
+    high_word_pairs(ctx);
     let pp = ctx.scale(14, 140);
     for ka in 0..NKINDS {
         for kb in 0..NKINDS {
@@ -1000,6 +1144,7 @@ fn gen_c11(ctx: &mut Ctx) {
 }
 
 fn gen_c12(ctx: &mut Ctx) {
+    ctx.allow_huge.set(true);
     let pp = ctx.scale(14, 140);
     for ks in 0..NKINDS {
         for kt in 0..NKINDS {
@@ -1063,12 +1208,86 @@ fn gen_c13(ctx: &mut Ctx) {
                 _ => need,
             };
             let rd: Vec<u128> = (0..have).map(|_| if ctx.rng.chance(1, 2) { 0xff } else { ctx.rng.below(256) as u128 }).collect();
-            ctx.emit(Case::new(7).kind(k).arg(len as u128).arg(ctx.rng.below(2) as u128).list(rd));
+            ctx.emit(Case::new(7).kind(k).arg(len as u128).arg(ctx.rng.below(2) as u128).arg(ctx.rng.below(3) as u128).list(rd));
+        }
+    }
+}
+
+fn big_mul_add(l: &mut Vec<u64>, m: u64, a: u64) {
+    let mut carry = a as u128;
+    for x in l.iter_mut() {
+        let t = (*x as u128) * (m as u128) + carry;
+        *x = t as u64;
+        carry = t >> 64;
+    }
+    if carry != 0 {
+        l.push(carry as u64);
+    }
+}
+
+/// values whose decimal expansion has structure: powers of ten and their neighbours, 19-digit groups
+/// (the chunk a u64 holds) that are zero, one, all nines or 10^18, up to `maxbits` bits
+fn decimal_structured(ctx: &mut Ctx, maxbits: usize) -> Vec<Vec<u64>> {
+    const P19: u64 = 10_000_000_000_000_000_000;
+    let mut out: Vec<Vec<u64>> = vec![];
+    let groups = maxbits / 63 + 1;
+    for _ in 0..(if ctx.thorough { 60 } else { 14 }) {
+        let g = 1 + ctx.rng.below(groups as u64) as usize;
+        let mut v: Vec<u64> = vec![0];
+        for i in 0..g {
+            let d = match ctx.rng.below(7) {
+                0 | 1 => 0,
+                2 => 1,
+                3 => P19 - 1,
+                4 => P19 / 10,
+                5 => ctx.rng.below(1000),
+                _ => ctx.rng.below(P19),
+            };
+            let d = if i == 0 && d == 0 { 1 + ctx.rng.below(9) } else { d };
+            big_mul_add(&mut v, P19, d);
+        }
+        out.push(v);
+    }
+    let k = ctx.rng.below(((maxbits as u64) * 3 / 10).max(1)) as usize;
+    let mut v: Vec<u64> = vec![1];
+    for _ in 0..k {
+        big_mul_add(&mut v, 10, 0);
+    }
+    out.push(v.clone());
+    let mut w = v.clone();
+    big_mul_add(&mut w, 1, 1);
+    out.push(w);
+    // 10^k - 1
+    let mut w = v;
+    for x in w.iter_mut() {
+        let (y, b) = x.overflowing_sub(1);
+        *x = y;
+        if !b { break; }
+    }
+    out.push(w);
+    out.retain(|v| sig_bits(v) <= maxbits);
+    out
+}
+
+fn decimal_cases(ctx: &mut Ctx) {
+    let maxlen = if ctx.thorough { 400 } else { 200 };
+    for k in 0..NKINDS {
+        let cap = kind_cap_or(k, maxlen).min(maxlen);
+        for v in decimal_structured(ctx, cap) {
+            let sb = sig_bits(&v);
+            let len = (sb + ctx.rng.below(3) as usize).min(cap);
+            let a = make_val(k, len, &v, ctx.rng.below(2) as usize, ctx.rng.chance(1, 3));
+            let sp = ctx.rng.pick(&FMT_SPECS);
+            let mut c = Case::new(31).arg(0);
+            for x in sp { c = c.arg(x); }
+            ctx.emit(c.val(a.clone()));
+            ctx.emit(Case::new(31).arg(0).arg(0).arg(0).arg(0).arg(0).arg(32).arg(0).val(a));
         }
     }
 }
 
 fn gen_c14(ctx: &mut Ctx) {
+    decimal_cases(ctx);
     zero_word_cases(ctx);
     let n = ctx.scale(12, 120);
     for k in 0..NKINDS {
@@ -1143,6 +1362,26 @@ fn gen_c15(ctx: &mut Ctx) {
             ctx.emit(Case::new(if hex { 5 } else { 4 }).kind(k).list(s));
         }
     }
+    // code points whose low byte (or low 16 bits) is a valid digit: truncating casts must not accept them
+    for k in 0..NKINDS {
+        for hex in [false, true] {
+            let digits: &[u128] = if hex { &[0x30, 0x31, 0x39, 0x41, 0x46, 0x61, 0x66] } else { &[0x30, 0x31] };
+            for &d in digits {
+                for off in [0x100u128, 0x200, 0x400, 0x600, 0x630 - 0x30, 0xff00 - 0x20 + 0x20, 0x1_0000, 0x1_f600, 0x2_0000, 0x10_0000, 0x80] {
+                    let cp = d + off;
+                    if (0xd800..0xe000).contains(&cp) || cp > 0x10ffff {
+                        continue;
+                    }
+                    let unit = if hex { 4 } else { 1 };
+                    let nch = (1 + ctx.rng.below(6) as usize).min(kind_cap(k).max(if kind_is_fixed(k) { 0 } else { 64 }) / unit).max(1);
+                    let mut s: Vec<u128> = (0..nch).map(|_| 48 + ctx.rng.below(2) as u128).collect();
+                    let i = ctx.rng.below(nch as u64) as usize;
+                    s[i] = cp;
+                    ctx.emit(Case::new(if hex { 5 } else { 4 }).kind(k).list(s));
+                }
+            }
+        }
+    }
     // Bv around the inline limit measured in chars and in bytes
     for nch in [31usize, 32, 33, 127, 128, 129] {
         for bad_at in [None, Some(0usize), Some(nch - 1)] {
@@ -1163,7 +1402,8 @@ fn gen_c16(ctx: &mut Ctx) {
     for k in 0..NKINDS {
         for len in boundary_lens(k, ctx.thorough) {
             let lat = lattice(len, &ctx.rng);
-            for limbs in lat {
+            let keep = if len > 260 && !ctx.thorough { 24 } else { lat.len() };
+            for limbs in lat.into_iter().take(keep) {
                 let a = make_val(k, len, &limbs, ctx.rng.below(3) as usize, ctx.rng.chance(1, 3));
                 for which in 0..4u128 {
                     ctx.emit(Case::new(27).arg(which).val(a.clone()));
@@ -1206,7 +1446,14 @@ fn gen_c18(ctx: &mut Ctx) {
         let a = rand_val(ctx, k);
         ctx.emit(Case::new(56).arg(ctx.rng.pick(&[0u128, 1, 63, 64, 65, 127, 128, 129, 500])).val(a.clone()));
         ctx.emit(Case::new(57).val(a.clone()));
-        ctx.emit(Case::new(20).val(a));
+        ctx.emit(Case::new(20).val(a.clone()));
+        // capacity bookkeeping of collect / extend under every kind of size hint
+        let g = ctx.rng.pick(&[0usize, 1, 63, 64, 65, 128, 129, 200]);
+        let bits = rand_bits(ctx, g);
+        let c = hint_args(ctx, Case::new(58), g);
+        ctx.emit(c.val(a).list(bits.clone()));
+        let c = hint_args(ctx, Case::new(10).kind(k), g);
+        ctx.emit(c.list(bits));
     }
 }
 
@@ -1239,9 +1486,9 @@ fn gen_c19(ctx: &mut Ctx) {
                         ctx.emit(Case::new(48).arg(ctx.rng.below(len as u64 + 1) as u128).val(a.clone()).val(s));
                     }
                     let bits = rand_bits(ctx, grow);
-                    ctx.emit(Case::new(58).arg(if ctx.rng.chance(1, 2) { grow as u128 } else { 0 }).val(a.clone()).list(bits));
+                    { let c = hint_args(ctx, Case::new(58), grow); ctx.emit(c.val(a.clone()).list(bits)); }
                     let bits = rand_bits(ctx, len + grow);
-                    ctx.emit(Case::new(10).kind(k).arg(if ctx.rng.chance(1, 2) { (len + grow) as u128 } else { 0 }).list(bits));
+                    { let c = hint_args(ctx, Case::new(10).kind(k), len + grow); ctx.emit(c.list(bits)); }
                     // out-of-range indices
                     ctx.emit(Case::new(24).arg((len + grow) as u128).val(a.clone()));
                     ctx.emit(Case::new(40).arg((len + grow) as u128).arg(b).val(a.clone()));
@@ -1254,7 +1501,7 @@ fn gen_c19(ctx: &mut Ctx) {
             let nb = cap / 8 + ctx.rng.below(3) as usize;
             let bytes: Vec<u128> = (0..nb).map(|_| ctx.rng.below(256) as u128).collect();
             ctx.emit(Case::new(6).kind(k).arg(ctx.rng.below(2) as u128).list(bytes.clone()));
-            ctx.emit(Case::new(7).kind(k).arg((cap + ctx.rng.below(3) as usize) as u128).arg(0).list(bytes));
+            ctx.emit(Case::new(7).kind(k).arg((cap + ctx.rng.below(3) as usize) as u128).arg(0).arg(ctx.rng.below(3) as u128).list(bytes));
             let s: Vec<u128> = (0..cap + ctx.rng.below(3) as usize).map(|_| 48 + ctx.rng.below(2) as u128).collect();
             ctx.emit(Case::new(4).kind(k).list(s));
             let s: Vec<u128> = (0..cap / 4 + ctx.rng.below(3) as usize).map(|_| 48 + ctx.rng.below(10) as u128).collect();
@@ -1272,6 +1519,8 @@ fn gen_c19(ctx: &mut Ctx) {
 }
 
 fn gen_c20(ctx: &mut Ctx) {
+    let na = ctx.scale(6, 60);
+    alias_cases(ctx, &[63, 64, 65, 66, 67, 68, 69, 70], na);
     // every operator x every form for every pairing of storage classes (fixed narrow / fixed wide /
     // heap / auto inline / auto heap), so that each delegating impl is executed at least once
     let classes: [(u8, bool); 6] = [(0, false), (4, false), (8, false), (KD, false), (KA, false), (KA, true)];
